@@ -801,6 +801,12 @@ class TermBuilder:
         return Tup([self.term(x, at) for x in e.elts])
 
     def _t_List(self, e, at):
+        if e.elts and all(isinstance(x, ast.Starred) for x in e.elts):
+            # [*xs] is list(xs); [*xs, *ys] is list(xs) + list(ys)
+            parts = [tm.make_app("builtins.list", [self.term(x.value, at)]) for x in e.elts]
+            t = parts[0] if len(parts) == 1 else Cat(parts)
+            self.seq_keys.add(t.key)
+            return t
         t = Lst([self.term(x, at) for x in e.elts])
         self.seq_keys.add(t.key)
         return t
@@ -872,6 +878,8 @@ class TermBuilder:
             if isinstance(b, Poly) and b.const_value() is not None and b.const_value().denominator == 1 \
                     and abs(b.const_value()) <= 6:
                 return tm.power(a, int(b.const_value()))
+            if isinstance(b, Poly) and b.const_value() == Fraction(1, 2):
+                return tm.sqrt(a)                     # x ** 0.5
             return App("pow", (a, b))
         if isinstance(op, ast.MatMult):
             return App("matmul", (a, b))
@@ -922,6 +930,8 @@ class TermBuilder:
         r = self.ana.res.fq_of_expr(self.fi, e)
         if r is not None:
             kind, fq = r
+            if fq in ("math.tau", "numpy.tau"):
+                return tm.mul(tm.const(2), Sym("pi"))
             if fq == "math.pi":
                 return Sym("pi")
             if kind == "global":
@@ -1409,7 +1419,7 @@ class TermBuilder:
                     base = self.term(t.value, n)
                     sl = t.slice
                     elts = sl.elts if isinstance(sl, ast.Tuple) else [sl]
-                    idx = tm.canon_idx(tuple(self._slice_term(x, n) for x in elts))
+                    idx = tm.canon_idx(tuple(self._slice_term(x, n) for x in elts), keep_slices=True)    # (a row store `t[i, :] = row` keeps its shape)
                     val = self.term(val_e, n)
                     out.append(Store(n, st, t, base, _root_name(t.value) if isinstance(t.value, ast.Name) else None,
                                      idx, None, val, self.guard_term(n), loops, aug, rngs, lvars))
